@@ -64,7 +64,8 @@ func (q *Queue[T]) Acquire(ctx context.Context, e T) (func(), error) {
 	case <-ctx.Done():
 		// context abort, remove queued entry
 		q.mu.Lock()
-		if i := slices.Index(q.queued, &e); i >= 0 {
+		// search by the wait channel, entries of a zero size type all have the same address
+		if i := slices.Index(q.wait, &w); i >= 0 {
 			q.queued = slices.Delete(q.queued, i, i+1)
 			q.wait = slices.Delete(q.wait, i, i+1)
 			q.mu.Unlock()
